@@ -123,6 +123,9 @@ def build(s):
         return collections.UserDict({k: build(v) for k, v in s[1:]})
     if t == "type":
         return _TYPES[s[1]]
+    if t == "frac":
+        from fractions import Fraction
+        return Fraction(s[1], s[2])
     if t == "np":
         return np.dtype(s[1]).type(s[2])
     cls = _lookup(t)
